@@ -220,12 +220,40 @@ def check(case, ctx):
         if v is not (s.lower() == 'true'):
             ctx.finding('e2e', 'bool_value',
                         'load_function()(%r) returned %r' % (s, v))
-    else:
-        if isinstance(v, (float, bool)):
+    elif isinstance(v, (float, bool)):
+        if True:
             ctx.finding('e2e', 'nonspec_loaded_as_' + type(v).__name__,
                         'load_function()(%r) returned %r (%s) although it is '
                         'neither a YAML 1.2 float nor bool'
                         % (s, v, type(v).__name__))
+
+
+    # the same spelling quoted and plain inside one document: typing must not
+    # depend on what else the document contains
+    if (want != STR or y11 != want) and all(ch not in s for ch in ',[]{}#&*!|>%@`"\'\\ \t\n'):
+        q = '"' + s + '"'
+        for doc, idx in (('[%s, %s]' % (q, s), 1), ('[%s, %s]' % (s, q), 0)):
+            try:
+                node = yaml.compose(doc, Loader=yaml.BaseLoader)
+                if not (isinstance(node, yaml.SequenceNode) and len(node.value) == 2
+                        and all(n.value == s for n in node.value)):
+                    continue
+                got2 = _load(doc)
+            except Exception as e:
+                ctx.count('context_doc_raises_' + type(e).__name__)
+                continue
+            ctx.count('context_docs')
+            plain_v, quoted_v = got2[idx], got2[1 - idx]
+            if type(quoted_v) is not str or quoted_v != s:
+                ctx.finding('context', 'quoted_twin_not_str',
+                            'in %r the quoted scalar loads as %r' % (doc, quoted_v))
+                return
+            same = type(plain_v) is type(v) and (plain_v == v or (
+                isinstance(v, float) and math.isnan(v) and math.isnan(plain_v)))
+            if not same:
+                ctx.finding('context', 'plain_scalar_typed_differently_in_context',
+                            'alone %r loads as %r, in %r it loads as %r' % (s, v, doc, plain_v))
+                return
 
 
 # ---------------------------------------------------------------------
